@@ -17,6 +17,6 @@ Statement: %(statement)s
 Quantifier: %(q)s
 Code it concerns: %(files)s
 
-Deliver in %(wt)s/seed/ : (1) patch.diff = output of `git diff -- miasm` for your change (only files under miasm/); (2) demo.py = a small standalone script, run as `cd %(wt)s && /venv/bin/python seed/demo.py`, that exits 0 on the unpatched tree and exits non-zero (failing assertion or uncaught exception) with the patch applied; (3) notes.md = what the change is, why it looks innocuous, what exactly it needs to manifest. Verify yourself: demo exits 0 without the patch (use `git stash` / `git stash pop`), non-zero with it; the 280 tests pass with the patch applied. Keep the change small (at most ~30 changed lines). Leave the patch APPLIED in the worktree when you finish. Final answer: the paths and a 5-line summary of the change and of what triggers it.""" % {
+Deliver in %(wt)s/seed/ : (1) patch.diff = output of `git diff -- miasm` for your change (only files under miasm/); (2) demo.py = a small standalone script, run as `cd %(wt)s && /venv/bin/python seed/demo.py`, that exits 0 on the unpatched tree and exits non-zero (failing assertion or uncaught exception) with the patch applied; (3) notes.md = what the change is, why it looks innocuous, what exactly it needs to manifest. Verify yourself: demo exits 0 without the patch (toggle the patch with `git apply -R seed/patch.diff` / `git apply seed/patch.diff`; NEVER use `git stash`: the stash is shared with other worktrees of this repository that other people are using right now), non-zero with it; the 280 tests pass with the patch applied. Keep the change small (at most ~30 changed lines). Leave the patch APPLIED in the worktree when you finish. Final answer: the paths and a 5-line summary of the change and of what triggers it.""" % {
     "wt": wt, "id": pid, "title": p["title"], "statement": p["statement"], "q": p["quantifier"]["text"],
     "files": ", ".join(p["anchors"]["files"]), "extra": (" " + extra) if extra else ""})
